@@ -59,9 +59,10 @@ impl<T> Polynomial<T> {
     #[inline]
     pub fn eval(&self, x: T) -> T
     where
-        T: Copy + Mul<Output = T> + Add<Output = T>,
+        T: Copy + Mul<Output = T> + Add<Output = T> + Zero,
     {
-        let degree = self.degree().unwrap(); //TODO unwrap
+        // the empty polynomial is the zero polynomial
+        let degree = match self.degree() { Ok( d ) => d, Err( _ ) => return T::zero() };
         let mut p = self.coeffs[ degree ];
         for i in (0..degree).rev() {
             p = p * x + self.coeffs[ i ];
